@@ -4,7 +4,7 @@
 (* repeating content, and every internal link lands on an existing target. *)
 (*                                                                         *)
 (* A document is a sequence of sectioning units in document order          *)
-(*   [lvl, lab, fn, title]  (level 1..3, labelled?, has a footnote?, title) *)
+(*   [lvl, lab, fn, title]  (level 1..3, kind of label, has a footnote?, title) *)
 (* preceded by the document body itself (node 0: level "document").  The   *)
 (* tree is implied by the levels.  Each unit carries one body marker b<i>  *)
 (* and, if fn, one footnote marker f<i>; cross references r : from -> to.  *)
@@ -25,6 +25,7 @@ CONSTANTS MaxNodes,
           SplitLevels,     \* values of files.split-level explored
           Templates,       \* subset of {"default", "title", "single"}
           MaxRefs,
+          LabKinds,        \* subset of {"none", "own", "index", "sect1"}: no label / a label of its own / the label "index" / the label "sect0001"
           RefKinds         \* subset of {"sec", "eq"}: references to labelled units / to the numbered equation every unit carries
 
 VARIABLES nodes, docfn, split, tmpl, refs, done
@@ -34,14 +35,15 @@ Titles == {"Intro", "Setup"}
 
 Init == /\ nodes = <<>> /\ docfn \in BOOLEAN /\ split \in SplitLevels /\ tmpl \in Templates /\ refs = <<>> /\ done = FALSE
 AddNode == /\ ~done /\ refs = <<>> /\ Len(nodes) < MaxNodes
-           /\ \E l \in 1..3, lab \in BOOLEAN, fn \in BOOLEAN, t \in Titles :
+           /\ \E l \in 1..3, lab \in LabKinds, fn \in BOOLEAN, t \in Titles :
+                 /\ (lab \in {"index", "sect1"} => \A j \in 1..Len(nodes) : nodes[j].lab # lab)   \* a label is defined once
                  /\ (nodes = <<>> => l = 1)                                   \* the first unit is a section
                  /\ (nodes # <<>> => l <= nodes[Len(nodes)].lvl + 1)          \* no level is skipped
                  /\ nodes' = Append(nodes, [lvl |-> l, lab |-> lab, fn |-> fn, title |-> t])
            /\ UNCHANGED <<docfn, split, tmpl, refs, done>>
 AddRef == /\ ~done /\ nodes # <<>> /\ Len(refs) < MaxRefs
           /\ \E a \in 0..Len(nodes), b \in 0..Len(nodes), k \in RefKinds :
-                /\ (k = "sec" => b > 0 /\ nodes[b].lab)
+                /\ (k = "sec" => b > 0 /\ nodes[b].lab # "none")
                 /\ refs' = Append(refs, [from |-> a, to |-> b, kind |-> k])
           /\ UNCHANGED <<nodes, docfn, split, tmpl, done>>
 Close == ~done /\ nodes # <<>> /\ done' = TRUE /\ UNCHANGED <<nodes, docfn, split, tmpl, refs>>
@@ -81,7 +83,11 @@ Written(f) == Str(f) \o Footnotes(f)
 Owners == SelectSeq([i \in 1..(N + 1) |-> i - 1], LAMBDA i : Owns(i))
 
 (* ---------------- machine layer: filenames (cacheFilenames in pre-order) ---------------- *)
-(* a name is a tuple: <<"index">>, <<"only">>, <<"id", i>> (the label of unit i), <<"title", t>>, <<"sect", n>> *)
+(* a name is a tuple: <<"index">>, <<"only">>, <<"id", i>> (the label of unit i), <<"title", t>>, <<"sect", n>>;          *)
+(* the labels "index" and "sect0001" are spelled like the static name and the first numbered name and so ARE those names *)
+LabelName(i) == CASE nodes[i].lab = "own" -> <<"id", i>> [] nodes[i].lab = "index" -> <<"index">> [] nodes[i].lab = "sect1" -> <<"sect", 1>> [] OTHER -> <<>>
+RECURSIVE NextFree(_, _)
+NextFree(num, issued) == IF <<"sect", num>> \in issued THEN NextFree(num + 1, issued) ELSE num
 RECURSIVE Assign(_, _, _, _)
 (* os: owners still to name; num; issued; acc: owner -> name *)
 Assign(os, num, issued, acc) ==
@@ -89,11 +95,11 @@ Assign(os, num, issued, acc) ==
     ELSE LET i == Head(os) IN
          IF i = 0 THEN Assign(Tail(os), num, issued \cup {IF tmpl = "single" THEN <<"only">> ELSE <<"index">>},
                               acc @@ (0 :> IF tmpl = "single" THEN <<"only">> ELSE <<"index">>))
-         ELSE LET first == IF tmpl = "default" THEN (IF nodes[i].lab THEN <<"id", i>> ELSE <<>>)
-                           ELSE <<"title", nodes[i].title>>
+         ELSE LET first == IF tmpl = "default" THEN LabelName(i) ELSE <<"title", nodes[i].title>>
+                  n == NextFree(num, issued)          \* a numbered candidate that is taken is skipped, the counter moves on
               IN IF first # <<>> /\ first \notin issued
                  THEN Assign(Tail(os), num, issued \cup {first}, acc @@ (i :> first))
-                 ELSE Assign(Tail(os), num + 1, issued \cup {<<"sect", num>>}, acc @@ (i :> <<"sect", num>>))
+                 ELSE Assign(Tail(os), n + 1, issued \cup {<<"sect", n>>}, acc @@ (i :> <<"sect", n>>))
 Names == Assign(Owners, 1, {}, <<>>)
 
 (* ---------------- links ---------------- *)
